@@ -133,6 +133,19 @@ CLAIMED["C14"] = (
     "custom AST dataflow: dependency templates, must-pass-through events, lazy-evaluation (short-circuit) detection, pipeline typestate (static analysis)",
     "DESIGN.md section 5, C14",
 )
+CLAIMED["C15"] = (
+    "Claimed for the counting-agreement, barrier, index-shift, parity-precondition and stage-shape clauses: prologue and "
+    "epilogue lengths, lower-bound shift and index-clone count all equal nb_stages-1 with the inner stage ranges and "
+    "index expressions (i, ub-(i+1), index-k) as required; every prologue/epilogue group and the steady-state body end "
+    "with a barrier; double buffering selects by index mod 2 between the alloc and its clone only for one writer stage "
+    "directly followed by one reader stage, the single-buffer shortcut only for read-only/write-only buffers; stages are "
+    ">= 2 barrier-closed groups with block arguments ordered inputs-then-outputs; only lb 0 / step 1 loops without nested "
+    "loops are pipelined. NOT decided: conflict freedom under all interleavings. The missing trip-count guard is a listed "
+    "known finding (F-16).",
+    WALKER_NOTE,
+    "custom AST analysis: counting-expression agreement, must-facts, per-path-class index expressions (static analysis)",
+    "DESIGN.md section 5, C15",
+)
 NOT_APPLICABLE = {
     "C02": "address-stream equality is integer arithmetic over runtime strides/bounds; no structural necessary condition carries weight (DESIGN.md section 5, C02)",
 }
